@@ -55,7 +55,9 @@ kc == <<99>>
 kd == <<100>>
 Wide == {<<<<"o", <<<<ka, i1>>, <<kb, <<"a", <<sa>>>>>>, <<kc, sa>>, <<kd, n>>>>>>>>,
          \* strings of different lengths incl. empty ones next to each other: replacements shorter / longer than what they replace
-         <<<<"a", <<<<"s", <<104, 101, 108, 108, 111>>>>, se, sa, <<"o", <<<<ka, se>>>>>>>>>>>>}
+         <<<<"a", <<<<"s", <<104, 101, 108, 108, 111>>>>, se, sa, <<"o", <<<<ka, se>>>>>>>>>>>>,
+         \* the same text as key and as several values (a serializer may store it once)
+         <<<<"a", <<<<"s", <<104, 101, 108, 108, 111>>>>, <<"o", <<<<<<104, 101, 108, 108, 111>>, <<"s", <<104, 101, 108, 108, 111>>>>>>>>>>>>>>>>}
 DocsEdit    == Shapes(3, {n, sa, i1}) \cup Multi \cup DocsFlag \cup Wide
                  \cup {<<<<"a", <<i1, <<"o", <<<<ka, sa>>, <<kb, <<"a", <<n, t>>>>>>>>>>, sq>>>>>>,
                        <<<<"o", <<<<ka, <<"a", <<sa, i1>>>>>>, <<kb, f25>>, <<ka, n>>>>>>>>}
